@@ -19,6 +19,11 @@ class Ctx:
         self.tier = tier
         self.config = config
         self.w = None
+        self.baseline = None   # {world name: stable names of the production build} when analysing another feature set
+
+    def feature_only(self, stable):
+        """The body exists only because of a non-production cargo feature (not in the production build of this world)."""
+        return self.baseline is not None and self.w is not None and stable not in self.baseline.get(self.w.name, set())
 
     # iteration -----------------------------------------------------------------
     def each_world(self):
@@ -102,6 +107,11 @@ class Ctx:
             else:
                 ok = st in allowed
                 n += 1
+            if not ok and self.feature_only(st):
+                self.chk.ob(rule, "writer:%s.%s:%s" % (adt.split("::")[-1], field, sname(st)), True,
+                            "%s exists only under a non-production cargo feature (%s build); not part of the program the property speaks about" % (st, self.config),
+                            key="%s:writer:%s.%s:%s" % (rule, adt.split("::")[-1], field, st), loc=lst[0].loc, nontrivial=False, kind="info")
+                continue
             ok_all &= self.chk.ob(rule, "writer:%s.%s:%s" % (adt.split("::")[-1], field, sname(st)), ok,
                                   "%s writes %s.%s (%s)%s" % (st, adt.split("::")[-1], field, ",".join(kinds_here),
                                                               "" if ok else " - not an accepted writer"),
@@ -117,6 +127,11 @@ class Ctx:
         ok_all = True
         for (caller, bb, t) in sites:
             ok = caller.stable in allowed
+            if not ok and self.feature_only(caller.stable):
+                self.chk.ob(rule, "caller:%s<-%s" % (sname(callee_stable), sname(caller.stable)), True,
+                            "%s exists only under a non-production cargo feature (%s build)" % (caller.stable, self.config),
+                            key="%s:caller:%s:%s" % (rule, callee_stable, caller.stable), loc=t.get("loc"), nontrivial=False, kind="info")
+                continue
             ok_all &= self.chk.ob(rule, "caller:%s<-%s" % (sname(callee_stable), sname(caller.stable)), ok,
                                   "%s calls %s%s" % (caller.stable, callee_stable, "" if ok else " - not an accepted caller"),
                                   key="%s:caller:%s:%s" % (rule, callee_stable, caller.stable), loc=t.get("loc"))
